@@ -1904,6 +1904,27 @@ package rtcp
 //@   ensures[C09] fields: err == nil && err2 == nil ==> q.SubType == p.SubType && q.SSRC == p.SSRC && len(q.Data) == len(p.Data)
 //@   ensures[C09] data: forall k :: err == nil && err2 == nil && 0 <= k && k < len(p.Data) ==> q.Data[k] == p.Data[k]
 
+//@ func lemmaReencodeREMB(raw []byte) (p ReceiverEstimatedMaximumBitrate, q ReceiverEstimatedMaximumBitrate, err error, err2 error, err3 error)
+//@   lemma
+//@   ensures[C09] accepted: err == nil && err2 == nil ==> err3 == nil
+//@   ensures[C09] fields: err == nil && err2 == nil ==> q.SenderSSRC == p.SenderSSRC && len(q.SSRCs) == len(p.SSRCs)
+//@   ensures[C09] ssrcs: forall k :: err == nil && err2 == nil && 0 <= k && k < len(p.SSRCs) ==> q.SSRCs[k] == p.SSRCs[k]
+//@   ensures[C09] notabove: err == nil && err2 == nil ==> q.Bitrate <= p.Bitrate
+//@   ensures[C09] bitrate: err == nil && err2 == nil ==> q.Bitrate == p.Bitrate
+
+//@ func lemmaRoundTripRaw(p RawPacket) (q RawPacket, err error, err2 error)
+//@   lemma
+//@   ensures[C02] encodes: err == nil
+//@   ensures[C02] decodes: (err2 == nil) <==> (len(p) >= 4 && p[0]>>6 == 2)
+//@   ensures[C02] same: err2 == nil ==> len(q) == len(p)
+//@   ensures[C02] bytes: forall k :: err2 == nil && 0 <= k && k < len(p) ==> q[k] == p[k]
+
+//@ func lemmaReencodeRaw(raw []byte) (p RawPacket, q RawPacket, err error, err2 error, err3 error)
+//@   lemma
+//@   ensures[C09] accepted: err == nil ==> err2 == nil && err3 == nil
+//@   ensures[C09] same: err == nil ==> len(q) == len(raw) && len(p) == len(raw)
+//@   ensures[C09] bytes: forall k :: err == nil && 0 <= k && k < len(raw) ==> q[k] == raw[k] && p[k] == raw[k]
+
 //@ func (n *NackPair) Range(f func(seqno uint16) bool)
 //@   safety[C12]
 //@   ensures[C12] first: cbcalls() >= 1 && cbArg[uint16](0) == n.PacketID
